@@ -116,8 +116,15 @@ def gen_c07(seed):
         from . import geo_cases
         fault = geo_cases.gen_fault(r, seed, 1.0)
         fault["reject"] = {k: v for k, v in fault["reject"].items() if k == "check_in_b"}
+    prelude = None
+    if r.random() < 0.4:
+        prelude = {"init": 7, "models": [{"hidden": [3], "act": "tanh"}], "param": None,
+                   "conds": [{"kind": "pinn", "weight": 1.0, "model": 0, "resid": "u_minus_c", "c": 1.0,
+                              "sampler": {"dom": "square", "kind": "grid", "n": 4, "static": "inf"}}],
+                   "opt": {"cls": r.choice(("SGD", "Adam")), "lr": r.choice((0.5, 1e-4)), "args": {}, "sched": None},
+                   "N": r.choice((1, 2)), "val": [], "trainer": {"sanity": 0}}
     return {"format": 1, "property": "C07", "engine": "trainsim", "seed": seed, "rng": H(seed, "rng"),
-            "spec": spec, "fault": fault}
+            "spec": spec, "fault": fault, "prelude": prelude}
 
 
 def gen_c19(seed, tier="quick"):
